@@ -454,4 +454,81 @@ class Truncations(Sub):
         return out
 
 
-SUBS = [Soups(), CodePoints(), Functions(), Faults(), Truncations()]
+class WallTimeout(BaseException):
+    pass
+
+
+REP_UNITS = LEXEMES + ['\\a', '\\"', "\\'", '\\\\', 'a\\', '""', "''", '1.', '.1', 'A1:', '$', 'é"', '0', 'E', 'e1']
+REP_PREFIX = ['', '"', "'", 'SUM(', '(', '{', '1+', 'va&"', '#', 'SUM("a",', "'x'&'"]
+REP_SMALL = ['1', '"', "'", '\\', 'a', '(', ')', ',', '.', '%', '^', '#', '!', '$', ':', '+', '-', '&', '<', ' ']
+
+
+class Repetition(Sub):
+    name = 'c01.repetition'
+    rule = ('prefix + unit*N for 11 prefixes (incl. unterminated quotes), every unit from 55 lexemes and every pair of 20 '
+            'single characters, N in the bound: besides the step budget, each parse runs under a wall-clock alarm of 10 s '
+            '(confirmed once at 40 s) - 4-5 orders of magnitude above the normal 0.1-1 ms - because a C-level stall such '
+            'as catastrophic regex backtracking executes no Python lines; non-trivial = all')
+    min_cases = 50
+    min_nontrivial = 1000
+    ALARM = 10
+
+    def cases(self, tier, unit):
+        ns = (30,) if tier == 'quick' else (12, 30, 60)
+        for pi in range(len(REP_PREFIX)):
+            yield ['units', pi, list(ns)]
+            for a in range(len(REP_SMALL)):
+                yield ['pairs', pi, a, list(ns)]
+
+    def timed(self, env, p, text, seconds):
+        import signal
+
+        def onalarm(signum, frame):
+            raise WallTimeout()
+        old = signal.signal(signal.SIGALRM, onalarm)
+        signal.alarm(seconds)
+        try:
+            try:
+                prob, raw = run_parse(env, p, text)
+                return prob
+            except WallTimeout:
+                return 'timeout'
+        finally:
+            signal.alarm(0)
+            signal.signal(signal.SIGALRM, old)
+
+    def one(self, env, text):
+        p = shared_parser(env)
+        env.nt()
+        prob = self.timed(env, p, text, self.ALARM)
+        if prob == 'timeout':
+            prob = self.timed(env, env.new_parser(), text, 4 * self.ALARM)
+            if prob == 'timeout':
+                prob = ('parse did not return within %d s of wall-clock time for a %d-character input (and not within %d s '
+                        'before that): a stall below the Python level' % (4 * self.ALARM, len(text), self.ALARM))
+        if prob:
+            return fail('parse(%r): %s' % (text, prob), None, None, case=['one', text])
+        return None
+
+    def check(self, env, case):
+        if case[0] == 'one':
+            return self.one(env, case[1])
+        out = []
+        if case[0] == 'units':
+            _, pi, ns = case
+            units = REP_UNITS
+        else:
+            _, pi, a, ns = case
+            units = [REP_SMALL[a] + b for b in REP_SMALL]
+        for u in units:
+            for n in ns:
+                f = self.one(env, REP_PREFIX[pi] + u * n)
+                if f:
+                    out.append(f)
+                    break
+            if len(out) >= 2:
+                break
+        return out
+
+
+SUBS = [Soups(), CodePoints(), Functions(), Faults(), Truncations(), Repetition()]
